@@ -998,3 +998,7 @@ def run_one(arg):
         return rec.result()
     except core.Violation as v:
         return rec.result(v)
+    except core.INTERPRETATION_ERRORS as e:
+        if not rec.props:
+            raise
+        return rec.result(core.uninterpretable(rec, e))
